@@ -207,4 +207,191 @@ theorem objInsert_blank_refused (s : S) (i : Nat) (txt : Str)
   have hg : ¬ (s.dirty = true ∨ s.texts.length ≤ i) := by rw [hd]; simp; omega
   simp [Edit.step, hg, hb.1, hb.2]
 
+/-! ## delete -/
+
+/-- **`obj.delete()`** on line `i` of a committed state removes exactly the positions
+`{i} ∪ all_children(i)` of the text list and nothing else: the remaining lines keep text
+and order (`eraseAll` = keep the positions not listed). -/
+theorem delete_spec (s : S) (i : Nat) (hnf : NoFilter s) (hd : s.dirty = false) (hi : i < s.texts.length) :
+    (step s (.delete i)).2 = .ok () ∧
+    (step s (.delete i)).1.texts
+      = (s.texts.zipIdx.filter (fun p => !(i :: allChildren s.tree i).contains p.2)).map (·.1) ∧
+    ((step s (.delete i)).1.texts).Sublist s.texts := by
+  have hg : ¬ (s.dirty = true ∨ s.texts.length ≤ i) := by rw [hd]; simp; omega
+  have ht : (step s (.delete i)).1.texts = eraseAll s.texts (descendantsAndSelf s.tree i) := by
+    simp [Edit.step, hg, edited_texts s hnf]
+  refine ⟨by simp [Edit.step, hg], ?_, ?_⟩
+  · rw [ht, eraseAll_eq_filter]; rfl
+  · rw [ht]; exact eraseAll_sublist _ _
+
+/-- … and when the committed tree is a forest whose size is the number of lines (true in
+every reachable committed state, `reachable_tree_ok`), the removed set is the line and
+its descendants in the sense of C03 (`i` on the ancestor chain), and the list gets
+shorter by exactly `1 + |all_children(i)|`. -/
+theorem delete_spec_forest (s : S) (i : Nat) (hnf : NoFilter s) (hd : s.dirty = false)
+    (hi : i < s.texts.length) (hf : Forest s.tree) (hsz : s.tree.size = s.texts.length) :
+    (step s (.delete i)).1.texts
+      = (s.texts.zipIdx.filter (fun p => decide (p.2 ≠ i ∧ i ∉ ancestors s.tree p.2))).map (·.1) ∧
+    (step s (.delete i)).1.texts.length + 1 + (allChildren s.tree i).length = s.texts.length := by
+  have hg : ¬ (s.dirty = true ∨ s.texts.length ≤ i) := by rw [hd]; simp; omega
+  have ht : (step s (.delete i)).1.texts = eraseAll s.texts (descendantsAndSelf s.tree i) := by
+    simp [Edit.step, hg, edited_texts s hnf]
+  rw [ht]
+  exact ⟨delete_filter_forest hf s.texts i, delete_length_forest hf s.texts i hsz hi⟩
+
+/-! ## replace_text / re_sub -/
+
+/-- **`obj.replace_text(before, after)`** changes position `i` only, to `str.replace` of its
+text (`replacement_frame`). -/
+theorem replaceText_spec (s : S) (i : Nat) (before after : Str) (hnf : NoFilter s)
+    (hd : s.dirty = false) (hi : i < s.texts.length) :
+    (step s (.replaceText i before after)).2 = .ok () ∧
+    (step s (.replaceText i before after)).1.texts
+      = s.texts.set i (pyReplace before after (s.texts.getD i [])) := by
+  have hg : ¬ (s.dirty = true ∨ s.texts.length ≤ i) := by rw [hd]; simp; omega
+  simp [Edit.step, hg, edited_texts s hnf]
+
+/-- **`obj.re_sub(regex, repl)`** (with `newText = re.sub(regex, repl, text_i)` computed by
+the caller) on a committed, non-stale state: position `i` only changes, to the
+substituted text; a substitution that leaves the text as it is changes nothing at all
+(not even a commit); on a stale state it refuses with `NotImplementedError`. -/
+theorem reSub_spec (s : S) (i : Nat) (newText : Str) (hnf : NoFilter s)
+    (hd : s.dirty = false) (hi : i < s.texts.length) :
+    (s.stale = false → newText ≠ s.texts.getD i [] →
+      (step s (.reSub i newText)).2 = .ok () ∧
+      (step s (.reSub i newText)).1.texts = s.texts.set i newText) ∧
+    (s.stale = false → newText = s.texts.getD i [] → step s (.reSub i newText) = (s, .ok ())) ∧
+    (s.stale = true → step s (.reSub i newText) = (s, .error .notImplemented)) := by
+  have hg : ¬ (s.dirty = true ∨ s.texts.length ≤ i) := by rw [hd]; simp; omega
+  refine ⟨fun hs hne => ?_, fun hs he => ?_, fun hs => ?_⟩
+  · have hne' : ¬ newText = s.texts[i]?.getD [] := by
+      simpa [List.getD_eq_getElem?_getD] using hne
+    simp [Edit.step, hg, hs, hne', edited_texts s hnf]
+  · have he' : newText = s.texts[i]?.getD [] := by
+      simpa [List.getD_eq_getElem?_getD] using he
+    simp [Edit.step, hg, hs, ← he']
+  · simp [Edit.step, hg, hs]
+
+/-! ## append_to_family -/
+
+/-- **`obj.append_to_family(txt, indent, auto_indent)`**: whenever it succeeds, the state was
+committed, the handle valid, and exactly one line — the payload after the explicit / auto
+indentation of `familyText` — is inserted, at the index `appendIndex` computes (clipped to
+the list length like `list.insert`); all other lines keep text and order
+(`insertion_frame`).  The new line is at the target's indent level or exactly one level
+deeper. -/
+theorem appendToFamily_spec (s : S) (i : Nat) (txt : Str) (ind : Int) (ai : Bool) (hnf : NoFilter s)
+    (hok : (step s (.appendToFamily i txt ind ai)).2 = .ok ()) :
+    let txt' := familyText (indentOf s.tree i) s.width txt ind ai
+    s.dirty = false ∧ i < s.texts.length ∧ ¬ (ai = true ∧ ind > 0) ∧
+    ∃ idx, appendIndex s.tree s.width i txt' = .ok idx ∧
+      (step s (.appendToFamily i txt ind ai)).1.texts
+        = s.texts.take (min idx s.texts.length) ++ txt' :: s.texts.drop (min idx s.texts.length) ∧
+      (cfi s.width (indentOf s.tree i) txt' = some 0 ∨ cfi s.width (indentOf s.tree i) txt' = some 1) := by
+  intro txt'
+  obtain ⟨h1, h2, h3, idx, h4, h5⟩ := step_appendToFamily_ok s i txt ind ai hok
+  refine ⟨h1, h2, h3, idx, h4, ?_, appendIndex_level _ _ _ _ idx h4⟩
+  rw [h5, edited_texts s hnf, pyInsert_eq, insertPos_natCast]
+
+/-- **Child-level append to a target that has children** (the new line is not at the
+target's own indent): the line is one level deeper than the target and is inserted at
+`familyEndpoint + 1`.  In a forest whose size is the number of lines (every reachable
+committed state) that is a valid position, namely directly after the last line among the
+target and its descendants. -/
+theorem appendToFamily_child_level (s : S) (i : Nat) (txt : Str) (ind : Int) (ai : Bool) (hnf : NoFilter s)
+    (hok : (step s (.appendToFamily i txt ind ai)).2 = .ok ())
+    (hk : children s.tree i ≠ [])
+    (h0 : cfi s.width (indentOf s.tree i) (familyText (indentOf s.tree i) s.width txt ind ai) ≠ some 0)
+    (hf : Forest s.tree) (hsz : s.tree.size = s.texts.length) :
+    let txt' := familyText (indentOf s.tree i) s.width txt ind ai
+    let e := familyEndpoint s.tree i
+    (step s (.appendToFamily i txt ind ai)).1.texts = s.texts.take (e + 1) ++ txt' :: s.texts.drop (e + 1) ∧
+    e + 1 ≤ s.texts.length ∧ e ∈ i :: allChildren s.tree i ∧ (∀ j ∈ i :: allChildren s.tree i, j ≤ e) ∧
+    cfi s.width (indentOf s.tree i) txt' = some 1 := by
+  intro txt' e
+  obtain ⟨_, h2, _, idx, h4, h5, _⟩ := appendToFamily_spec s i txt ind ai hnf hok
+  obtain ⟨h6, h7⟩ := appendIndex_child_level _ _ _ _ idx hk h4 h0
+  have h8 : e < s.tree.size := familyEndpoint_lt_size hf (by omega)
+  have h9 := familyEndpoint_max hf i
+  refine ⟨?_, by omega, h9.1, h9.2, h7⟩
+  rw [h5, h6, Nat.min_eq_left (by omega)]
+
+/-- **Same-indent append to a target that has children — known finding F10b.**  Intended
+(and what the property asks for): the line goes after the whole family, i.e. at
+`familyEndpoint + 1`.  What the code does, and what is proved here: it is inserted at
+`i + |children(i)|`, which lies inside the family as soon as the target has a grandchild
+(see the example below). -/
+theorem appendToFamily_same_indent_partial (s : S) (i : Nat) (txt : Str) (ind : Int) (ai : Bool)
+    (hnf : NoFilter s) (hok : (step s (.appendToFamily i txt ind ai)).2 = .ok ())
+    (hk : children s.tree i ≠ [])
+    (h0 : cfi s.width (indentOf s.tree i) (familyText (indentOf s.tree i) s.width txt ind ai) = some 0) :
+    let txt' := familyText (indentOf s.tree i) s.width txt ind ai
+    let j := min (i + (children s.tree i).length) s.texts.length
+    (step s (.appendToFamily i txt ind ai)).1.texts = s.texts.take j ++ txt' :: s.texts.drop j := by
+  intro txt' j
+  obtain ⟨_, _, _, idx, h4, h5, _⟩ := appendToFamily_spec s i txt ind ai hnf hok
+  rw [h5, appendIndex_same_indent _ _ _ _ idx hk h4 h0]
+
+/-- **Append to a childless target**, as the code does it: a line at the target's indent
+goes after the target's last sibling (or, without siblings, after the last line of that
+level found by `last_family_linenum`); a line one level deeper goes after
+`last_parent_linenums[0]`. -/
+theorem appendToFamily_childless (s : S) (i : Nat) (txt : Str) (ind : Int) (ai : Bool)
+    (hok : (step s (.appendToFamily i txt ind ai)).2 = .ok ()) (hk : children s.tree i = []) :
+    let txt' := familyText (indentOf s.tree i) s.width txt ind ai
+    ∃ idx, appendIndex s.tree s.width i txt' = .ok idx ∧
+    ((cfi s.width (indentOf s.tree i) txt' = some 0 ∧
+      ((siblings s.tree i ≠ [] ∧ idx = ((siblings s.tree i).getLast?).getD i + 1) ∨
+       (siblings s.tree i = [] ∧ ∃ l, lastFamilyLinenum s.tree s.width i = some l ∧ idx = l + 1))) ∨
+     (cfi s.width (indentOf s.tree i) txt' = some 1 ∧
+      ∃ lp, lastParentLinenum0 s.tree s.width i = some lp ∧ idx = lp + 1)) := by
+  intro txt'
+  obtain ⟨_, _, _, idx, h4, _⟩ := step_appendToFamily_ok s i txt ind ai hok
+  exact ⟨idx, h4, appendIndex_childless _ _ _ _ idx hk h4⟩
+
+/-! ## errors and frame -/
+
+/-- **Every refused operation leaves the whole state unchanged** (texts, tree, flags). -/
+theorem errors_leave_state (s : S) (op : Op) (e : Err) (h : (step s op).2 = .error e) :
+    (step s op).1 = s := step_error_unchanged s op e h
+
+/-- An object handle on a state with uncommitted changes, or beyond the end, is not
+executed (the model's `dirtyHandle`; the harness skips the call on both sides). -/
+theorem stale_handle_skipped (s : S) (i : Nat) (txt before after : Str) (ind : Int) (ai : Bool)
+    (h : s.dirty = true ∨ s.texts.length ≤ i) :
+    step s (.objInsBefore i txt) = (s, .error .dirtyHandle) ∧
+    step s (.objInsAfter i txt) = (s, .error .dirtyHandle) ∧
+    step s (.delete i) = (s, .error .dirtyHandle) ∧
+    step s (.appendToFamily i txt ind ai) = (s, .error .dirtyHandle) ∧
+    step s (.replaceText i before after) = (s, .error .dirtyHandle) ∧
+    step s (.reSub i txt) = (s, .error .dirtyHandle) := by
+  have hg : (s.dirty || decide (i ≥ s.texts.length)) = true := by
+    rcases h with h | h <;> simp [h]
+  simp only [Edit.step, hg, if_true, and_self]
+
+/-- **Frame**: no operation changes the options; with auto-commit off only `commit`
+replaces the committed tree; `probe` changes nothing. -/
+theorem others_unchanged (s : S) (op : Op) :
+    (step s op).1.cfg = s.cfg ∧ (step s op).1.auto = s.auto ∧ (step s op).1.width = s.width ∧
+    (s.auto = false → op ≠ .commit → (step s op).1.tree = s.tree) ∧
+    (step s .probe).1 = s :=
+  ⟨(step_frame s op).1, (step_frame s op).2.1, (step_frame s op).2.2,
+   fun ha hop => step_tree_unchanged s op ha hop, rfl⟩
+
+/-- The hypotheses `Forest s.tree` and `s.tree.size = s.texts.length` used above hold in
+every state reached from a parse that has no uncommitted change (C07's invariant). -/
+theorem reachable_tree_ok (cfg : Cfg) (auto : Bool) (width : Nat) (ls : List Str) (ops : List Op) :
+    let s := run (init cfg auto width ls) ops
+    s.dirty = false → Forest s.tree ∧ s.tree.size = s.texts.length := by
+  intro s hd
+  have h := run_fresh _ ops (init_fresh cfg auto width ls) hd
+  refine ⟨?_, by rw [T.size, ← h.2]⟩
+  rw [h.1]
+  exact bootstrap_forest _ _
+
+/-- The second case of `NoFilter`, spelled out: with auto-commit on and
+`ignore_blank_lines` off, the commit after the edit keeps the texts. -/
+theorem auto_commit_keeps_texts (s : S) (h : s.cfg.ignoreBlank = false) :
+    (commit s).texts = s.texts ∧ NoFilter s := ⟨commit_texts_noignore s h, .inr h⟩
+
 end Ccp.C06
